@@ -417,16 +417,44 @@ def extract(bdir):
     def compound(fnode):
         return [n for n in walk(fnode) if n.get("kind") == "CompoundAssignOperator"]
 
+    def callee_names(fnode):
+        out_ = []
+        for x in walk(fnode):
+            if x.get("kind") == "CallExpr":
+                for y in walk(x["inner"][0]):
+                    nm = ref_name(y)
+                    if nm and nm not in out_:
+                        out_.append(nm)
+        return out_
+
+    def bodies(f):
+        """the function itself and the helpers of this file it calls directly (a harmless `extract helper`
+        refactoring keeps the tie: the statement is looked for there too)"""
+        res = [(f, ast_function(bdir, SRC, f))]
+        for nm in callee_names(body_of(res[0][1])):
+            if nm in ("free_call", "free_called_call", "time_left") or not re.search(r"^%s\s*\(" % re.escape(nm), text, re.M):
+                continue
+            try:
+                res.append((nm, ast_function(bdir, SRC, nm)))
+            except TieBroken:
+                pass
+        return res
+
     unl = {}
+    unl_home = {}
     for f in ("remove_call_out", "remove_call_out_by_handle", "remove_all_call_out"):
-        fn = ast_function(bdir, SRC, f)
-        cs = [n for n in compound(body_of(fn)) if chain(n["inner"][0])[-1] == "delta"]
-        need(f + ".unlink", len(cs) == 1, "exactly one update of a `delta` field expected (`cop->next->delta += cop->delta`), found %d" % len(cs))
-        c = cs[0]
+        cs = []
+        for nm, fnode in bodies(f):
+            for n in compound(body_of(fnode)):
+                if chain(n["inner"][0])[-1] == "delta":
+                    cs.append((nm, fnode, n))
+        need(f + ".unlink", len(cs) == 1, "exactly one update of a `delta` field expected (`cop->next->delta += cop->delta`, "
+             "in the function or in a helper it calls), found %d" % len(cs))
+        home, hnode, c = cs[0]
         need(f + ".unlink", chain(c["inner"][0]) == ("cop", "next", "delta") and chain(c["inner"][1]) == ("cop", "delta")
              and c.get("opcode") in ("+=", "-="), "not of the form `cop->next->delta += cop->delta`: %s" % src_of(c, text))
-        # the update must be guarded by `if (cop->next)` and precede the unlink `*copp = cop->next`
         unl[f] = (c.get("opcode")[0], c)
+        unl_home[f] = hnode
     need("unlink", len(set(v[0] for v in unl.values())) == 1, "the three copies of the successor update differ")
     uop, un = list(unl.values())[0]
     out.append("/-- remove_call_out[_by_handle], remove_all_call_out: `%s` (the removed entry's delta is folded into its "
@@ -481,14 +509,47 @@ def extract(bdir):
             c = chain(n["inner"][0])
             if len(c) >= 3 and c[-2:] == ("ob", "flags") and macro_tok(strip(n["inner"][1])) == "O_DESTRUCTED":
                 return "obDead"
+        if k == "BinaryOperator" and n.get("opcode") == "&":
+            c = chain(n["inner"][0])
+            if len(c) >= 3 and c[-2:] == ("owner", "flags") and "function" in c and macro_tok(strip(n["inner"][1])) == "O_DESTRUCTED":
+                return "fpDead"
+        if k == "BinaryOperator" and n.get("opcode") == "==":
+            c, r = chain(n["inner"][0]), chain(n["inner"][1])
+            if len(c) == 2 and c[-1] == "ob" and r in (("obj",), ("ob",)):
+                return "obIsObj"
+            if c[-1] == "owner" and "function" in c and r in (("obj",), ("ob",)):
+                return "fpIsObj"
+            l = strip(n["inner"][0])
+            if l.get("kind") == "CallExpr" and any(ref_name(y) == "strcmp" for y in walk(l["inner"][0])) \
+                    and strip(n["inner"][1]).get("kind") == "IntegerLiteral" and strip(n["inner"][1]).get("value") == "0":
+                return "nameEq"
         if k == "MemberExpr" and chain(n)[-1] == "ob" and len(chain(n)) == 2:
             return "obNonNull"
         raise TieBroken("c10:" + site, "%s: condition leaves the grammar: %s" % (site, src_of(n, text)))
 
+    _frees_cache = {}
+
+    def helper_frees(nm):
+        if nm not in _frees_cache:
+            _frees_cache[nm] = False
+            if nm == "free_call":
+                _frees_cache[nm] = True
+            elif re.search(r"^%s\s*\(" % re.escape(nm), text, re.M):
+                try:
+                    hb = body_of(ast_function(bdir, SRC, nm))
+                    _frees_cache[nm] = any(ref_name(y) == "free_call" for x in walk(hb) if x.get("kind") == "CallExpr"
+                                           for y in walk(x["inner"][0]))
+                except TieBroken:
+                    pass
+        return _frees_cache[nm]
+
+    def frees(x):
+        """x contains a call of free_call, directly or through a helper of this file"""
+        return any(helper_frees(ref_name(z)) for y in walk(x) if y.get("kind") == "CallExpr" for z in walk(y["inner"][0])
+                   if ref_name(z))
+
     fn = ast_function(bdir, SRC, "call_out")
-    drops = [n for n in walk(body_of(fn)) if n.get("kind") == "IfStmt" and len(kids(n)) == 3
-             and any(x.get("kind") == "CallExpr" and any(ref_name(y) == "free_call" for y in walk(x["inner"][0]))
-                     for x in walk(kids(n)[1]))]
+    drops = [n for n in walk(body_of(fn)) if n.get("kind") == "IfStmt" and len(kids(n)) == 3 and frees(kids(n)[1])]
     need("call_out.drop", len(drops) == 1, "the `if (cop->ob && (cop->ob->flags & O_DESTRUCTED))` drop test not found")
     out.append("/-- call_out: the entry is dropped without a call when `%s` -/\ndef dropCond (obNonNull obDead : Bool) : Bool :=\n  %s\n"
                % (src_of(kids(drops[0])[0], text), bexp("call_out.drop", kids(drops[0])[0])))
@@ -504,6 +565,64 @@ def extract(bdir):
     out.append("/-- get_all_call_outs: the counting loop counts an entry when `%s` (must be the complement of the skip test) -/\n"
                "def infoCount (obNonNull obDead : Bool) : Bool :=\n  %s\n"
                % (src_of(kids(counts[0])[0], text), bexp("get_all_call_outs.count", kids(counts[0])[0])))
+
+    # ---- ownership tests: remove_all_call_out, remove_call_out / find_call_out by name ---------------------------
+    fn = ast_function(bdir, SRC, "remove_all_call_out")
+    ifs = [n for n in walk(body_of(fn)) if n.get("kind") == "IfStmt" and len(kids(n)) == 3 and frees(kids(n)[1])]
+    need("remove_all_call_out.owner", len(ifs) == 1, "the ownership test `if (... ob == obj || destructed ...) unlink else advance` not found")
+    need("remove_all_call_out.owner", not frees(kids(ifs[0])[2]), "the else branch frees an entry")
+    out.append("/-- remove_all_call_out: an entry is removed when `%s` -/\n"
+               "def removeAllCond (obNonNull obIsObj obDead fpIsObj fpDead : Bool) : Bool :=\n  %s\n"
+               % (src_of(kids(ifs[0])[0], text)[:280], bexp("remove_all_call_out.owner", kids(ifs[0])[0])))
+    bn = {}
+    for f in ("remove_call_out", "find_call_out"):
+        fn = ast_function(bdir, SRC, f)
+        cands = [n for n in walk(body_of(fn)) if n.get("kind") == "IfStmt"
+                 and any(x.get("kind") == "CallExpr" and any(ref_name(y) == "strcmp" for y in walk(x["inner"][0])) for x in walk(kids(n)[0]))]
+        need(f + ".match", len(cands) == 1, "the `ob == ob && strcmp (...) == 0` test not found")
+        bn[f] = (bexp(f + ".match", kids(cands[0])[0]), kids(cands[0])[0])
+    need("by_name.match", len(set(v[0] for v in bn.values())) == 1, "remove_call_out and find_call_out match entries differently: %s"
+         % sorted(v[0] for v in bn.values()))
+    out.append("/-- remove_call_out / find_call_out (by name): an entry matches when `%s` -/\n"
+               "def byNameCond (obIsObj nameEq : Bool) : Bool :=\n  %s\n" % (src_of(bn["find_call_out"][1], text), bn["find_call_out"][0]))
+
+    # ---- statement orders of the list surgery --------------------------------------------------------------------
+    def is_free_call(x):
+        return any(y.get("kind") == "CallExpr" and any(ref_name(z) == "free_call" for z in walk(y["inner"][0])) for y in walk(x))
+
+    def is_unlink(x):       # `*copp = cop->next`
+        return x.get("kind") == "BinaryOperator" and x.get("opcode") == "=" and chain(x["inner"][0]) == ("*copp",) \
+            and chain(x["inner"][1]) == ("cop", "next")
+    for f in ("remove_call_out", "remove_call_out_by_handle", "remove_all_call_out"):
+        fn = unl_home[f]
+        blocks = [b for b in walk(body_of(fn)) if b.get("kind") == "CompoundStmt" and any(is_unlink(x) for x in kids(b))]
+        need(f + ".order", len(blocks) == 1, "the block with `*copp = cop->next` not found")
+        ks = kids(blocks[0])
+        iu = [i for i, x in enumerate(ks) if is_unlink(x)][0]
+        ifold = [i for i, x in enumerate(ks) if x.get("kind") == "IfStmt" and any(c is unl[f][1] for c in walk(x))]
+        ifree = [i for i, x in enumerate(ks) if is_free_call(x)]
+        need(f + ".order", len(ifold) == 1 and len(ifree) == 1 and ifold[0] < iu < ifree[0],
+             "the modelled order `if (cop->next) cop->next->delta += cop->delta; *copp = cop->next; free_call (cop);` changed")
+        cn = strip(kids(ks[ifold[0]])[0])
+        need(f + ".order", chain(cn) == ("cop", "next"), "the successor update is no longer guarded by `if (cop->next)`")
+    # call_out(): the entry is taken out of the chain before anything is called
+    fn = ast_function(bdir, SRC, "call_out")
+    dos = [n for n in walk(body_of(fn)) if n.get("kind") == "DoStmt"
+           and any(x.get("kind") == "MemberExpr" and x.get("name") == "delta" for x in walk(kids(n)[1]))]
+    need("call_out.pop", len(dos) == 1 and kids(dos[0])[0].get("kind") == "CompoundStmt", "do/while body not found")
+    dk = kids(kids(dos[0])[0])
+
+    def is_pop(x):          # `call_list[tm] = call_list[tm]->next`
+        return x.get("kind") == "BinaryOperator" and x.get("opcode") == "=" and chain(x["inner"][1])[-1:] == ("next",) \
+            and strip(x["inner"][0]).get("kind") == "ArraySubscriptExpr"
+
+    def is_take(x):         # `cop = call_list[tm]`
+        return is_assign_to(x, "cop") and strip(x["inner"][1]).get("kind") == "ArraySubscriptExpr"
+    it = [i for i, x in enumerate(dk) if is_take(x)]
+    ip = [i for i, x in enumerate(dk) if is_pop(x)]
+    ic = [i for i, x in enumerate(dk) if x.get("kind") == "IfStmt"]
+    need("call_out.pop", len(it) == 1 and len(ip) == 1 and len(ic) == 1 and it[0] < ip[0] < ic[0] and len(dk) == 3,
+         "the do/while body is no longer `cop = call_list[tm]; call_list[tm] = call_list[tm]->next; if (destructed) drop else call`")
 
     # ---- allocation chunk -----------------------------------------------------------------------------------
     m = re.search(r"^#define\s+CHUNK_SIZE\s+(\d+)\s*$", text, re.M)
